@@ -91,7 +91,10 @@ class HistoryHarness(Harness):
                     out += [t for t in list(lp._transports.values()) if not t.is_closing()]
                 return out
 
+            obs.recv_at_tx = []
+
             def on_send(sock, data, n):
+                obs.recv_at_tx.append(world.recv_count)
                 live = transports()
                 if len(live) > 1:
                     obs.two_open.append((world.now, len(live)))
@@ -100,7 +103,8 @@ class HistoryHarness(Harness):
 
             def do_request(j):
                 cmd = inv._read_command(REG0 + 10 * j, scen.count)
-                r = {"j": j, "t0": world.now, "exc": None, "result": None, "abort": None, "tx0": len(world.transmissions)}
+                r = {"j": j, "t0": world.now, "exc": None, "result": None, "abort": None, "tx0": len(world.transmissions),
+                     "delivered_before": world.recv_count}
                 try:
                     r["result"] = vworld.run(loops[-1], inv._read_from_socket(cmd))
                 except vworld.Hang:
@@ -113,8 +117,11 @@ class HistoryHarness(Harness):
                     r["exc"] = e
                 r["t_done"] = world.now
                 r["tx"] = [x for x in world.transmissions if rix(bytes(x[1])) == j]
+                first_ix = [i for i, x in enumerate(world.transmissions) if rix(bytes(x[1])) == j][:1]
+                r["recv_at_first_tx"] = obs.recv_at_tx[first_ix[0]] if first_ix else None
                 r["open"] = len(transports())
                 r["fds"] = sorted({x[2] for x in r["tx"]})
+                r["delivered_n"] = world.recv_count
                 r["outcome"] = TR.classify(M, r["exc"]) if r["abort"] is None else r["abort"]
                 r["count"] = getattr(r["exc"], "consecutive_failures_count", None)
                 obs.reqs.append(r)
@@ -221,7 +228,10 @@ class HistoryHarness(Harness):
             if scen.keep_alive:
                 for a, b, i in zip(reqs, reqs[1:], range(len(reqs))):
                     between = self._between(i)
-                    if a["outcome"].startswith("response") and b["outcome"].startswith("response") and not between \
+                    # "consecutive successful requests": a was answered on its first transmission and nothing else
+                    # was sent by the peer (a stray exception frame or ICMP error legitimately closes the socket)
+                    quiet = len(a["tx"]) == 1 and (steps_req[i] == "answer" or self.first == "answer")
+                    if a["outcome"].startswith("response") and b["outcome"].startswith("response") and not between and quiet \
                             and a["fds"] and b["fds"] and a["fds"][-1] != b["fds"][0]:
                         fail("keep-alive on: consecutive successful requests did not reuse the transport", f"{a['fds']} {b['fds']}")
             if obs.fds_open_after_drain not in (None, 0) and not scen.keep_alive:
